@@ -82,6 +82,13 @@ func newSubProcess(parentCtx context.Context, eventBuilder event.IDefinitionInst
 			mch:                    make(chan imessage, len(parentWiring.incoming)*2+1),
 		}
 
+		// events handed to the enclosing scope must reach the event nodes inside
+		// the sub-process as well (they register with the sub-process)
+		err = parentWiring.eventEgress.RegisterEventConsumer(process)
+		if err != nil {
+			return
+		}
+
 		locator := parentWiring.locator
 		err = data.ElementToLocator(locator, idGenerator, subProcessElement)
 		if err != nil {
